@@ -658,7 +658,7 @@ func (w *workload) secondLevel(d1root string, r1 *recovered, seed int64, res *vh
 func runOne(dir string, seed int64, runIdx int, thorough bool, res *vh.Result, out *os.File) {
 	deep := 6
 	if thorough {
-		deep = 30
+		deep = 16
 	}
 	rng := rand.New(rand.NewSource(seed*1000003 + int64(runIdx)))
 	c := pick(rng, runIdx)
